@@ -20,8 +20,8 @@ CASES = [
     m('split-without-rstrip', 'R3', 'append_output[', "            lines = raw_output.rstrip().split(\"\\n\")", "            lines = raw_output.split(\"\\n\")"),
     m('lines-inserted-at-front', 'R1', 'output:', "            self.output.extend(lines)", "            self.output[0:0] = lines"),
     m('output-reset-in-run', 'R1', 'raw_output:assign@Sandbox.run', "        self.target = None\n        self._execute(code, filename, SandboxContextKind.RUN, threaded)", "        self.target = None\n        self.raw_output = \"\"\n        self._execute(code, filename, SandboxContextKind.RUN, threaded)"),
-    m('stop-mocking-records-empty', 'R2', '_stop_mocking', "        self.append_output(current_stdout.getvalue(), context)", "        self.append_output(\"\", context)"),
-    m('stop-mocking-wrong-context', 'R2', '_stop_mocking', "        self.append_output(current_stdout.getvalue(), context)", "        self.append_output(current_stdout.getvalue(), self._context[0])"),
+    m('stop-mocking-records-empty', 'R2', '_stop_mocking', "        self.append_output(output, context)", "        self.append_output(\"\", context)"),
+    m('stop-mocking-wrong-context', 'R2', '_stop_mocking', "        self.append_output(output, context)", "        self.append_output(output, self._context[0])"),
     m('buffer-reused', 'R2', '_start_mocking:fresh-buffer', "            captured_stdout = io.StringIO()", "            captured_stdout = self._shared_buffer"),
     m('pop-from-back', 'R4', 'input[', "                value_entered = self.inputs.pop(0)", "                value_entered = self.inputs.pop()"),
     m('prompt-not-echoed-when-empty', 'R4', 'input[queue=[]', "                # TODO: Make this smarter, more elegant in choosing IF we should repeat 0\n                print(prompt)\n", "                # TODO: Make this smarter, more elegant in choosing IF we should repeat 0\n"),
